@@ -109,7 +109,7 @@ func init() {
 			if tier == "thorough" {
 				return 20 * time.Minute
 			}
-			return 70 * time.Second
+			return 100 * time.Second
 		},
 	})
 }
